@@ -75,7 +75,11 @@ func (c *Controller) hit(cl *Client, point, id string) {
 }
 
 // ParkAt makes future arrivals at (point, id) wait; id "*" matches any client id.
-func (c *Controller) ParkAt(point, id string) { c.mu.Lock(); c.rules[point+"|"+id] = true; c.mu.Unlock() }
+func (c *Controller) ParkAt(point, id string) {
+	c.mu.Lock()
+	c.rules[point+"|"+id] = true
+	c.mu.Unlock()
+}
 
 // WaitParked waits until n goroutines are held at (point, id).
 func (c *Controller) WaitParked(point, id string, n int, timeout time.Duration) bool {
